@@ -7,6 +7,10 @@ HOOKS = {
     'add_only': True,
 }
 ENGINES = [
+    {'name': 'tlc+replay', 'path': '/verif/vlib', 'serves_properties': ['C10', 'C13', 'C14'],
+     'kind_free_text': 'TLA+ state-machine specification checked exhaustively by TLC within bounds; TLC-generated '
+                       'behaviours (transition cover, -simulate) replayed step by step into the real class with the '
+                       'abstract state compared after each step; property monitors on the real objects'},
     {'name': 'tlc+vectors', 'path': '/verif/vlib', 'serves_properties': ['C09', 'C11', 'C12', 'C15', 'C16', 'C17'],
      'kind_free_text': 'TLA+ reference specification of a function/grammar; TLC checks the laws on every case of a '
                        'bounded domain (one state per case) and emits the cases as vectors that are executed against '
@@ -16,6 +20,31 @@ NOTES = ('All checks: ./check <id> --tier quick|thorough; VERIF_SEED, VERIF_TIER
          'Specifications under /verif/spec, known findings in /verif/known_findings.json, design in DESIGN.md.')
 NOT_YET = {}
 CHECKS = {
+    'C10': dict(
+        engine='tlc+replay', technique='TLA+ state-machine spec (heap + frames) checked by TLC; transition-cover and simulated behaviours replayed into the real Frame class; model-free property monitors',
+        design_ref='DESIGN.md 2.4, 3.2, 5/C10',
+        text='TLC proves Fresh/NoAlias/RoStaysRo/JpgOnlyOnFrozen/JpgFresh on FrameViews.tla (intended design) for every '
+             'sequence of <=3 (quick) / <=4 (thorough) operations from 12 start frames, and exhibits the counterexample for '
+             'each named defect. Every transition of the state graph is replayed on real Frame objects (3 sizes) and the '
+             'projected real world is compared with the model state; -simulate behaviours of 12 operations are compared after '
+             'every step; seeded random walks of 12-16 operations run on the real objects; the property formulas are '
+             'evaluated on the real objects after every step by a model-free monitor (only it produces violations).',
+        note='exhaustive to length 3/4, longer sequences sampled; an in-place edit is a whole-array +37; jpg correspondence '
+             'is exact (cv2 determinism trusted); GRAY judged against cv2 luminance; frames without image excluded'),
+    'C17': dict(
+        engine='tlc+vectors', technique='TLA+ reference spec (Xform.tla) checked by TLC; all cases replayed into the real Util.execute_xforms and VideoReader.thread_reader',
+        design_ref='DESIGN.md 2.5, 5/C17',
+        text='TLC evaluates the 13 laws of C17 (no-fail, resize exact, video fit-inside, max/min bounds, never '
+             'enlarge/shrink, aspect within one pixel, independent bounds for +, exact permutations and their algebra, '
+             'format keeps size, box inside rectangle) on the exact-integer reference for every case of the bounded domain '
+             'plus harness-supplied large-size boundary families (to 4000 px) and sampled 3-chains; with the named '
+             'deviations switched on TLC exhibits the zero-dimension and video-resize counterexamples. Every case is '
+             'executed against the real code on coordinate-encoded frames (GRAY/BGR/RGB, read-only and writable, all '
+             'interpolation codes); the property formulas are evaluated on every real step and size/format/pixels are '
+             'compared with the reference.',
+        note='state space = set of cases; bounds >= 1; interpolated pixel values and GRAY box luminance not judged; video '
+             'frames injected (vidgear stubbed), a sample cross-checked through the reader thread; declared deviation: '
+             'float truncation may leave the limiting side one pixel short (falsifies no law)'),
     'C15': dict(
         engine='tlc+vectors', technique='TLA+ information-flow spec (Redact.tla) checked by TLC; every structural case replayed into the real filters with capturing logger, lineage client and MQ',
         design_ref='DESIGN.md 2.5, 5/C15',
